@@ -5,9 +5,9 @@ import (
 	"testing"
 
 	"verif/vs"
-	sync "verif/vs/vsync"
 	atomic "verif/vs/vatomic"
 	context "verif/vs/vctx"
+	sync "verif/vs/vsync"
 )
 
 // lost update: two threads do load;store on an atomic -> needs 1 preemption
